@@ -5,9 +5,10 @@ from fractions import Fraction
 from harness.core import Rng, gz, gq, gnat, glist, Dec, num_close
 
 PID = "C18"
-VO = ["theories/Metrics/Bootstrap.vo", "theories/Metrics/Bootstrap_proofs.vo", "theories/Base/Flat.vo"]
+VO = ["theories/Metrics/Bootstrap.vo", "theories/Metrics/Bootstrap_proofs.vo", "theories/Base/Flat.vo",
+      "theories/Metrics/BootstrapSrc.vo", "theories/Metrics/BootstrapSrc_proofs.vo"]
 PROPS_FILES = ["props/C18.v"]
-TRANSLATORS = []
+TRANSLATORS = ["t_bootstrap"]
 REQUIRES = ["From FL Require Import Num ListX Flat Bootstrap."]
 SHARD = 12
 CHUNK = 2
@@ -18,8 +19,15 @@ LEVEL_TEXT = ("Proof (Coq) about an executable model of generate_bootstrap_sampl
               "common value on a constant list, q<=1/(2(m-1)) and q'>=1-1/(2(m-1)) bracket the mean with positive "
               "width when two values differ; every *_ci result has one entry per quantile, the aligned (union) index "
               "and one cell per metric; cells are non-decreasing in the quantile (NaN pattern fixed); a resample of n "
-              "valid positions has n rows drawn from the data so the overall count is n at every quantile. Tie to the "
-              "code: a recording metric callable logs the row ids of every call, the harness rebuilds every resample "
+              "valid positions has n rows drawn from the data so the overall count is n at every quantile; the "
+              "quantiles at 0 and 1 are the minimum and the maximum. Tie to the code (1): translators/t_bootstrap.py "
+              "matches every statement of _bootstrap.py and of MetricFrame's bootstrap code against templates and "
+              "regenerates the decisions the model depends on (frac=1, replace=True, axis=0, the seed stream, "
+              "np.quantile / np.nanquantile with q as given, axis 0, default method, dispatch on sample 0, union fold, "
+              "n_boot / ci_quantiles handed on unchanged, the eight caches, their aggregates and accessors); "
+              "C18_source_tie states that they are the model's constants and C18_source_semantics that their meaning "
+              "is the model populate_ci; for every generator and sampler an integer seed fixes the n_boot resamples, "
+              "one seed of the stream per sample. Tie to the code (2): a recording metric callable logs the row ids of every call, the harness rebuilds every resample "
               "from the log and the SAME Gallina definitions (vm_compute) re-derive all eight *_ci results from the "
               "logged resamples; they are compared with MetricFrame's to 1e-9.")
 LEVEL_NOTE = ("Trusted: Coq kernel + vm_compute; pandas DataFrame.sample / groupby / reindex / union and numpy "
@@ -27,8 +35,10 @@ LEVEL_NOTE = ("Trusted: Coq kernel + vm_compute; pandas DataFrame.sample / group
               "argument of the model (hypothesis: n positions < n), reproducibility of the seed stream is checked by "
               "running twice; metrics in the correspondence are count / mean / sum / constant / shifted mean of "
               "y_pred (theorems hold for every metric function).")
-TECHNIQUE = "Coq proof on an executable model + differential run of the model on the logged resamples"
+TECHNIQUE = ("Coq proof on an executable model + fail-closed translator of the source's decisions + differential run "
+             "of the model on the logged resamples")
 TRUSTED = ["Coq 8.16.1 kernel and vm_compute", "harness/props/c18.py (generators, log reconstruction, comparison)",
+           "translators/t_bootstrap.py (template matcher; meaning of the tags: theories/Metrics/BootstrapSrc.v)",
            "pandas sample/groupby/reindex/Index.union, numpy quantile/nanquantile (modelled)",
            "no axioms (Print Assumptions: closed)"]
 ASSUMPTIONS = ["a resample is a list of n row positions < n (checked on every logged resample)",
